@@ -325,6 +325,18 @@ func runClosure(x *mc.Cell, o closureOpts) {
 						if !views.IsPrefix(prevV, st.Vouchers()) || !views.IsPrefix(prevR, st.VoucherResults()) {
 							viol("C19", "logs-not-append-only;op="+op.Name, "voucher / voucher-result log is not an extension of the previous one")
 						}
+						// each applied voucher / voucher result is recorded exactly once (also when it equals the previous entry)
+						wantV, wantR := len(prevV), len(prevR)
+						if applied && op.Name == "NewVoucher" {
+							wantV++
+						}
+						if applied && op.Name == "NewVoucherResult" {
+							wantR++
+						}
+						if len(st.Vouchers()) != wantV || len(st.VoucherResults()) != wantR {
+							viol("C19", fmt.Sprintf("log-length;op=%s;applied=%v;vouchers=%d->%d;results=%d->%d", op.Name, applied, len(prevV), len(st.Vouchers()), len(prevR), len(st.VoucherResults())),
+								"an applied NewVoucher / NewVoucherResult adds exactly one entry to its log, every other operation none")
+						}
 					}
 				next:
 					prevV, prevR = st.Vouchers(), st.VoucherResults()
